@@ -8,6 +8,10 @@ C05 — helper lemmas for the word-level models of pp_mul.c (ModelPpMul.lean), `
   §6 instances ppMul2/4/8, ppMulW, ppAddMulW   §7 Kara3 (ppMul3, ppMul9; ppMul5/6/7)
   §8 ppMulEq (all n), the chunk loop, ppMul
   §9 ppSqr (table check by `decide`, Frobenius, `ppSqr_spec`)
+  §11 the (hi, lo) register of _MUL_MUL_S4 (`regStep`, `ppMulS4Loop_spec`), `clmul_Gf_Kf`,
+      `Mul1OK_of_RepairOK` (what is left open is `RepairOK`: the seven _MUL_REPAIR_S4 lines)
+  §12 `_MUL_REPAIR_S4`: both sides of `RepairOK` are xor-bilinear in (a, b) (`additive_ext`), the
+      w^2 monomial cases are evaluated by `decide +kernel` ⇒ `Mul1OK_16/32/64`
   §10 towards `Mul1OK`: `ppTab_at` (table entry i = a·i mod x^w), `octet_spec` (one octet of _MUL_MUL_S4)
 -/
 import Bee2V.C05.ModelPpMul
@@ -882,5 +886,295 @@ theorem octet_spec (w a y : Nat) (ha : a < 2 ^ w) (hy : y < 256) :
   conv_rhs => rw [ey, clmul_xor, clmul_shiftLeft, Nat.xor_mod_two_pow]
   show (clmul a (y >>> 4) % 2 ^ w * 2 ^ 4) % 2 ^ w ^^^ _ = _
   rw [Nat.xor_comm, Nat.shiftLeft_eq, mod_mul_mod']
+
+/-! ## §11 `_MUL_MUL_S4`: the (hi, lo) shift register -/
+
+/-- octet i of b -/
+def octet (b i : Nat) : Nat := (b >>> (8 * i)) &&& 255
+
+/-- what the register accumulates: XOR_{i<j} (a·y_i mod x^w) << 8i -/
+def Gf (w a b : Nat) : Nat → Nat
+  | 0 => 0
+  | j + 1 => ((clmul a (octet b j) % 2 ^ w) <<< (8 * j)) ^^^ Gf w a b j
+
+/-- what the truncations lose: XOR_{i<j} ((a·y_i) >> w) << 8i -/
+def Kf (w a b : Nat) : Nat → Nat
+  | 0 => 0
+  | j + 1 => ((clmul a (octet b j) >>> w) <<< (8 * j)) ^^^ Kf w a b j
+
+theorem octet_lt (b i : Nat) : octet b i < 256 := by
+  unfold octet; rw [and255]; exact Nat.mod_lt _ (by norm_num)
+
+/-- one step of the register: exact two-word shift by 8, then xor into the low word -/
+theorem regStep {w lo hi E s : Nat} (hw : 8 ≤ w) (hlo : lo < 2 ^ w) (hhi : hi < 2 ^ s)
+    (hs : s + 8 ≤ w) (hE : E < 2 ^ w) :
+    (wshl w lo 8 ^^^ E) + 2 ^ w * (wshl w hi 8 ^^^ (lo >>> (w - 8)))
+      = ((lo + 2 ^ w * hi) <<< 8) ^^^ E
+    ∧ wshl w lo 8 ^^^ E < 2 ^ w ∧ wshl w hi 8 ^^^ (lo >>> (w - 8)) < 2 ^ (s + 8) := by
+  obtain ⟨u, rfl⟩ : ∃ u, w = u + 8 := ⟨w - 8, by omega⟩
+  rw [Nat.add_sub_cancel]
+  have hB : 2 ^ (u + 8) = 2 ^ u * 2 ^ 8 := Nat.pow_add 2 u 8
+  have hdm := Nat.div_add_mod lo (2 ^ u)
+  have hl0 : lo % 2 ^ u < 2 ^ u := Nat.mod_lt _ (Nat.two_pow_pos u)
+  have hl1 : lo / 2 ^ u < 2 ^ 8 := Nat.div_lt_of_lt_mul (by rw [← hB]; exact hlo)
+  have hsu : 2 ^ s ≤ 2 ^ u := Nat.pow_le_pow_right (by omega) (by omega)
+  -- low word
+  have e1 : wshl (u + 8) lo 8 = lo % 2 ^ u * 2 ^ 8 := by
+    show lo * 2 ^ 8 % 2 ^ (u + 8) = _
+    rw [hB, Nat.mul_mod_mul_right]
+  have hX : lo % 2 ^ u * 2 ^ 8 < 2 ^ (u + 8) := by
+    rw [hB]; exact Nat.mul_lt_mul_of_pos_right hl0 (by norm_num)
+  -- high word
+  have e2 : wshl (u + 8) hi 8 = hi * 2 ^ 8 := by
+    show hi * 2 ^ 8 % 2 ^ (u + 8) = _
+    apply Nat.mod_eq_of_lt
+    rw [hB]; exact Nat.mul_lt_mul_of_pos_right (by omega) (by norm_num)
+  have e3 : hi * 2 ^ 8 ^^^ lo >>> u = lo / 2 ^ u + 2 ^ 8 * hi := by
+    rw [add_mul_eq_xor hl1, Nat.shiftRight_eq_div_pow, Nat.shiftLeft_eq, Nat.xor_comm]
+  rw [e1, e2, e3]
+  refine ⟨?_, Nat.xor_lt_two_pow hX hE, ?_⟩
+  · have e4 : (lo + 2 ^ (u + 8) * hi) <<< 8
+        = lo % 2 ^ u * 2 ^ 8 + 2 ^ (u + 8) * (lo / 2 ^ u + 2 ^ 8 * hi) := by
+      rw [Nat.shiftLeft_eq, hB]
+      conv_lhs => rw [← hdm]
+      ring
+    rw [e4]
+    have := add_mul_xor (w := u + 8) (x := lo % 2 ^ u * 2 ^ 8) (y := E)
+      (u := lo / 2 ^ u + 2 ^ 8 * hi) (v := 0) hX hE
+    rw [Nat.mul_zero, Nat.add_zero, Nat.xor_zero] at this
+    exact this.symm
+  · have : 2 ^ 8 * (hi + 1) ≤ 2 ^ 8 * 2 ^ s := Nat.mul_le_mul_left _ hhi
+    rw [Nat.pow_add, Nat.mul_comm (2 ^ s)]
+    omega
+
+theorem nib_hi (b j : Nat) : (b >>> (8 * j + 4)) &&& 15 = octet b j >>> 4 := by
+  unfold octet
+  rw [Nat.shiftRight_add, and255, show (15 : Nat) = 2 ^ 4 - 1 by norm_num,
+    Nat.and_two_pow_sub_one_eq_mod, Nat.shiftRight_eq_div_pow, Nat.shiftRight_eq_div_pow,
+    Nat.shiftRight_eq_div_pow]
+  omega
+
+theorem nib_lo (b j : Nat) : (b >>> (8 * j)) &&& 15 = octet b j &&& 15 := by
+  unfold octet
+  rw [and255, show (15 : Nat) = 2 ^ 4 - 1 by norm_num, Nat.and_two_pow_sub_one_eq_mod,
+    Nat.and_two_pow_sub_one_eq_mod]
+  omega
+
+/-- the octet loop of `_MUL_MUL_S4`: `j` octets left, `hi` has room for them -/
+theorem ppMulS4Loop_spec (w a b : Nat) (ha : a < 2 ^ w) (hw : 8 ≤ w) (j : Nat) :
+    ∀ lo hi s, lo < 2 ^ w → hi < 2 ^ s → s + 8 * j ≤ w →
+      (ppMulS4Loop w (ppTab w a) b j lo hi).1 < 2 ^ w
+      ∧ (ppMulS4Loop w (ppTab w a) b j lo hi).2 < 2 ^ (s + 8 * j)
+      ∧ (ppMulS4Loop w (ppTab w a) b j lo hi).1 + 2 ^ w * (ppMulS4Loop w (ppTab w a) b j lo hi).2
+        = ((lo + 2 ^ w * hi) <<< (8 * j)) ^^^ Gf w a b j := by
+  induction j with
+  | zero =>
+    intro lo hi s hlo hhi hs
+    simp only [ppMulS4Loop, Gf, Nat.mul_zero, Nat.add_zero, Nat.shiftLeft_zero, Nat.xor_zero]
+    exact ⟨hlo, hhi, trivial⟩
+  | succ j ih =>
+    intro lo hi s hlo hhi hs
+    have hE : clmul a (octet b j) % 2 ^ w < 2 ^ w := Nat.mod_lt _ (Nat.two_pow_pos w)
+    obtain ⟨r1, r2, r3⟩ := regStep hw hlo hhi (by omega) hE
+    obtain ⟨i1, i2, i3⟩ := ih _ _ (s + 8) r2 r3 (by omega)
+    have hlo' : wshl w lo 8 ^^^ wshl w (ppAt (ppTab w a) ((b >>> (8 * j + 4)) &&& 15)) 4
+        ^^^ ppAt (ppTab w a) ((b >>> (8 * j)) &&& 15)
+        = wshl w lo 8 ^^^ (clmul a (octet b j) % 2 ^ w) := by
+      rw [nib_hi, nib_lo, Nat.xor_assoc, octet_spec w a _ ha (octet_lt b j)]
+    simp only [ppMulS4Loop, hlo']
+    refine ⟨i1, by rw [show s + 8 * (j + 1) = s + 8 + 8 * j by omega]; exact i2, ?_⟩
+    rw [i3, r1, Gf, Nat.shiftLeft_xor_distrib, ← Nat.shiftLeft_add,
+      show 8 + 8 * j = 8 * (j + 1) by omega, Nat.xor_assoc]
+
+theorem mod_succ_octet (b j : Nat) :
+    b % 2 ^ (8 * (j + 1)) = b % 2 ^ (8 * j) ^^^ (octet b j <<< (8 * j)) := by
+  have hlow : b % 2 ^ (8 * j) < 2 ^ (8 * j) := Nat.mod_lt _ (Nat.two_pow_pos _)
+  unfold octet
+  rw [show 8 * (j + 1) = 8 * j + 8 by omega, Nat.pow_add, Nat.mod_mul, add_mul_eq_xor hlow,
+    and255, Nat.shiftRight_eq_div_pow]
+
+/-- the product of `a` with the low j octets of `b`, split into what the register holds and what
+    the truncations lose -/
+theorem clmul_Gf_Kf (w a b j : Nat) :
+    clmul a (b % 2 ^ (8 * j)) = Gf w a b j ^^^ (Kf w a b j <<< w) := by
+  induction j with
+  | zero => simp [Gf, Kf, Nat.mod_one, clmul_zero]
+  | succ j ih =>
+    have hx : clmul a (octet b j)
+        = clmul a (octet b j) % 2 ^ w ^^^ ((clmul a (octet b j) >>> w) <<< w) := by
+      rw [← add_mul_eq_xor (Nat.mod_lt _ (Nat.two_pow_pos w)), Nat.shiftRight_eq_div_pow,
+        Nat.add_comm, Nat.div_add_mod]
+    rw [mod_succ_octet, clmul_xor, clmul_shiftLeft, ih, Gf, Kf]
+    conv_lhs => rw [hx]
+    simp only [Nat.shiftLeft_xor_distrib, ← Nat.shiftLeft_add, Nat.add_comm w (8 * j)]
+    ac_rfl
+
+/-- the seven `_MUL_REPAIR_S4` lines add exactly the lost part (the remaining open piece) -/
+def RepairOK (w : Nat) : Prop :=
+  ∀ a b hi, a < 2 ^ w → b < 2 ^ w → ppRepair w a b hi = hi ^^^ Kf w a b (w / 8)
+
+theorem Mul1OK_of_RepairOK (nb : Nat) (hnb : 2 ≤ nb) (hr : RepairOK (8 * nb)) : Mul1OK (8 * nb) := by
+  intro a b ha hb
+  have hw8 : 8 * nb / 8 = nb := by omega
+  obtain ⟨j, rfl⟩ : ∃ j, nb = j + 1 := ⟨nb - 1, by omega⟩
+  have hB := Nat.two_pow_pos (8 * (j + 1))
+  -- top octet
+  have htop : b >>> (8 * (j + 1) - 8) = octet b j := by
+    unfold octet
+    rw [show 8 * (j + 1) - 8 = 8 * j by omega, and255, Nat.mod_eq_of_lt]
+    rw [Nat.shiftRight_eq_div_pow]
+    apply Nat.div_lt_of_lt_mul
+    rw [← Nat.pow_add, show 8 * j + 8 = 8 * (j + 1) by omega]; exact hb
+  have hlo0 : wshl (8 * (j + 1)) (ppAt (ppTab (8 * (j + 1)) a) (b >>> (8 * (j + 1) - 4))) 4
+      ^^^ ppAt (ppTab (8 * (j + 1)) a) ((b >>> (8 * (j + 1) - 8)) &&& 15)
+      = clmul a (octet b j) % 2 ^ (8 * (j + 1)) := by
+    have h4 : b >>> (8 * (j + 1) - 4) = octet b j >>> 4 := by
+      rw [← htop, ← Nat.shiftRight_add, show 8 * (j + 1) - 8 + 4 = 8 * (j + 1) - 4 by omega]
+    rw [h4, htop, octet_spec _ a _ ha (octet_lt b j)]
+  have hE : clmul a (octet b j) % 2 ^ (8 * (j + 1)) < 2 ^ (8 * (j + 1)) := Nat.mod_lt _ hB
+  obtain ⟨l1, l2, l3⟩ := ppMulS4Loop_spec (8 * (j + 1)) a b ha (by omega) j _ 0 0 hE
+    (Nat.two_pow_pos 0) (by omega)
+  simp only [Nat.mul_zero, Nat.add_zero] at l3
+  have hV : (ppMulS4 (8 * (j + 1)) (ppTab (8 * (j + 1)) a) b).1
+      + 2 ^ (8 * (j + 1)) * (ppMulS4 (8 * (j + 1)) (ppTab (8 * (j + 1)) a) b).2
+      = Gf (8 * (j + 1)) a b (j + 1) := by
+    unfold ppMulS4
+    simp only [hlo0, hw8, Nat.add_sub_cancel]
+    rw [l3, Gf]
+  have hlo : (ppMulS4 (8 * (j + 1)) (ppTab (8 * (j + 1)) a) b).1 < 2 ^ (8 * (j + 1)) := by
+    unfold ppMulS4
+    simp only [hlo0, hw8, Nat.add_sub_cancel]
+    exact l1
+  have hprod := clmul_Gf_Kf (8 * (j + 1)) a b (j + 1)
+  rw [Nat.mod_eq_of_lt hb, ← hV] at hprod
+  have e : Kf (8 * (j + 1)) a b (j + 1) <<< (8 * (j + 1))
+      = 0 + 2 ^ (8 * (j + 1)) * Kf (8 * (j + 1)) a b (j + 1) := by
+    rw [Nat.shiftLeft_eq, Nat.mul_comm, Nat.zero_add]
+  rw [e, add_mul_xor hlo hB, Nat.xor_zero] at hprod
+  have hrep := hr a b (ppMulS4 (8 * (j + 1)) (ppTab (8 * (j + 1)) a) b).2 ha hb
+  rw [hw8] at hrep
+  have hlt := clmul_lt ha hb
+  rw [Nat.pow_add] at hlt
+  unfold ppMul1W
+  simp only [hrep]
+  generalize (ppMulS4 (8 * (j + 1)) (ppTab (8 * (j + 1)) a) b).1 = lo at *
+  generalize (ppMulS4 (8 * (j + 1)) (ppTab (8 * (j + 1)) a) b).2
+    ^^^ Kf (8 * (j + 1)) a b (j + 1) = X at *
+  refine ⟨hlo, ?_, hprod.symm⟩
+  by_contra hcon
+  have : 2 ^ (8 * (j + 1)) * 2 ^ (8 * (j + 1)) ≤ 2 ^ (8 * (j + 1)) * X :=
+    Nat.mul_le_mul_left _ (by omega)
+  omega
+
+/-! ## §12 `_MUL_REPAIR_S4` by bilinearity -/
+
+/-- xor-additive functions that agree on the monomials agree below `2^n` -/
+theorem additive_ext (f g : Nat → Nat) (hf : ∀ x y, f (x ^^^ y) = f x ^^^ f y)
+    (hg : ∀ x y, g (x ^^^ y) = g x ^^^ g y) (n : Nat) (h : ∀ i < n, f (2 ^ i) = g (2 ^ i)) :
+    ∀ x < 2 ^ n, f x = g x := by
+  have f0 : f 0 = 0 := by
+    have h2 := hf 0 0
+    rw [Nat.xor_self] at h2
+    have : f 0 ^^^ f 0 = 0 := Nat.xor_self _
+    rw [← h2] at this; exact this
+  have g0 : g 0 = 0 := by
+    have h2 := hg 0 0
+    rw [Nat.xor_self] at h2
+    have : g 0 ^^^ g 0 = 0 := Nat.xor_self _
+    rw [← h2] at this; exact this
+  induction n with
+  | zero => intro x hx; have : x = 0 := by simpa using hx
+            rw [this, f0, g0]
+  | succ n ih =>
+    intro x hx
+    have hlow : x % 2 ^ n < 2 ^ n := Nat.mod_lt _ (Nat.two_pow_pos n)
+    have hq : x / 2 ^ n < 2 := Nat.div_lt_of_lt_mul (by rw [← Nat.pow_succ]; exact hx)
+    have ex : x = x % 2 ^ n ^^^ ((x / 2 ^ n) <<< n) := by
+      rw [← add_mul_eq_xor hlow, Nat.add_comm, Nat.div_add_mod]
+    have hq01 : x / 2 ^ n = 0 ∨ x / 2 ^ n = 1 := by
+      revert hq; generalize x / 2 ^ n = q; omega
+    rw [ex, hf, hg, ih (fun i hi => h i (by omega)) _ hlow]
+    congr 1
+    obtain h0 | h1 := hq01
+    · rw [h0, Nat.zero_shiftLeft, f0, g0]
+    · rw [h1, Nat.one_shiftLeft]; exact h n (by omega)
+
+theorem octet_xor (b1 b2 j : Nat) : octet (b1 ^^^ b2) j = octet b1 j ^^^ octet b2 j := by
+  unfold octet; rw [Nat.shiftRight_xor_distrib, Nat.and_xor_distrib_right]
+
+theorem Kf_add_b (w a b1 b2 j : Nat) : Kf w a (b1 ^^^ b2) j = Kf w a b1 j ^^^ Kf w a b2 j := by
+  induction j with
+  | zero => simp [Kf]
+  | succ j ih =>
+    simp only [Kf, octet_xor, clmul_xor, Nat.shiftRight_xor_distrib, Nat.shiftLeft_xor_distrib, ih]
+    ac_rfl
+
+theorem Kf_add_a (w a1 a2 b j : Nat) : Kf w (a1 ^^^ a2) b j = Kf w a1 b j ^^^ Kf w a2 b j := by
+  induction j with
+  | zero => simp [Kf]
+  | succ j ih =>
+    simp only [Kf, xor_clmul, Nat.shiftRight_xor_distrib, Nat.shiftLeft_xor_distrib, ih]
+    ac_rfl
+
+theorem ppRepair_eq (w a b hi : Nat) : ppRepair w a b hi = hi ^^^ ppRepair w a b 0 := by
+  simp only [ppRepair, List.foldl, ppRepairStep, Nat.zero_xor, Nat.xor_assoc]
+
+theorem ppRepair_add_b (w a b1 b2 : Nat) :
+    ppRepair w a (b1 ^^^ b2) 0 = ppRepair w a b1 0 ^^^ ppRepair w a b2 0 := by
+  simp only [ppRepair, List.foldl, ppRepairStep, Nat.zero_xor, Nat.and_xor_distrib_right,
+    Nat.shiftRight_xor_distrib]
+  ac_rfl
+
+theorem wneg_add (w u v : Nat) (hw : 0 < w) (hu : u ≤ 1) (hv : v ≤ 1) :
+    wneg w (u ^^^ v) = wneg w u ^^^ wneg w v := by
+  obtain rfl | rfl : u = 0 ∨ u = 1 := by omega
+  all_goals obtain rfl | rfl : v = 0 ∨ v = 1 := by omega
+  all_goals simp [Bee2V.C05.Mul.wneg01 hw]
+
+theorem ppRepair_add_a (w a1 a2 b : Nat) (hw : 0 < w) :
+    ppRepair w (a1 ^^^ a2) b 0 = ppRepair w a1 b 0 ^^^ ppRepair w a2 b 0 := by
+  have key : ∀ s, wneg w (((a1 ^^^ a2) >>> s) &&& 1)
+      = wneg w ((a1 >>> s) &&& 1) ^^^ wneg w ((a2 >>> s) &&& 1) := by
+    intro s
+    rw [Nat.shiftRight_xor_distrib, Nat.and_xor_distrib_right,
+      wneg_add w _ _ hw Nat.and_le_right Nat.and_le_right]
+  simp only [ppRepair, List.foldl, ppRepairStep, Nat.zero_xor, key, Nat.and_xor_distrib_left]
+  ac_rfl
+
+theorem repair_base16 : ∀ i < 16, ∀ p < 16, ppRepair 16 (2 ^ i) (2 ^ p) 0 = Kf 16 (2 ^ i) (2 ^ p) 2 := by
+  decide +kernel
+
+theorem repair_base32 : ∀ i < 32, ∀ p < 32, ppRepair 32 (2 ^ i) (2 ^ p) 0 = Kf 32 (2 ^ i) (2 ^ p) 4 := by
+  decide +kernel
+
+theorem repair_base64 : ∀ i < 64, ∀ p < 64, ppRepair 64 (2 ^ i) (2 ^ p) 0 = Kf 64 (2 ^ i) (2 ^ p) 8 := by
+  decide +kernel
+
+/-- both sides of `RepairOK` are xor-bilinear in (a, b): agreement on monomials suffices -/
+theorem RepairOK_of_base (w nb : Nat) (hw : 0 < w) (hnb : w / 8 = nb)
+    (hbase : ∀ i < w, ∀ p < w, ppRepair w (2 ^ i) (2 ^ p) 0 = Kf w (2 ^ i) (2 ^ p) nb) :
+    RepairOK w := by
+  intro a b hi ha hb
+  rw [ppRepair_eq, hnb]
+  congr 1
+  refine additive_ext (fun a => ppRepair w a b 0) (fun a => Kf w a b nb)
+    (fun x y => ppRepair_add_a w x y b hw) (fun x y => Kf_add_a w x y b nb) w ?_ a ha
+  intro i hi
+  exact additive_ext (fun b => ppRepair w (2 ^ i) b 0) (fun b => Kf w (2 ^ i) b nb)
+    (fun x y => ppRepair_add_b w (2 ^ i) x y) (fun x y => Kf_add_b w (2 ^ i) x y nb) w
+    (fun p hp => hbase i hi p hp) b hb
+
+theorem Mul1OK_16 : Mul1OK 16 :=
+  Mul1OK_of_RepairOK 2 (by omega) (RepairOK_of_base 16 2 (by omega) rfl repair_base16)
+theorem Mul1OK_32 : Mul1OK 32 :=
+  Mul1OK_of_RepairOK 4 (by omega) (RepairOK_of_base 32 4 (by omega) rfl repair_base32)
+theorem Mul1OK_64 : Mul1OK 64 :=
+  Mul1OK_of_RepairOK 8 (by omega) (RepairOK_of_base 64 8 (by omega) rfl repair_base64)
+
+theorem Mul1OK_of_width {w : Nat} (hw : w = 16 ∨ w = 32 ∨ w = 64) : Mul1OK w := by
+  rcases hw with rfl | rfl | rfl
+  · exact Mul1OK_16
+  · exact Mul1OK_32
+  · exact Mul1OK_64
 
 end Bee2V.C05.PpMul
